@@ -283,6 +283,12 @@ impl BM25 {
         self.index.has_pending_metadata_flush()
     }
 
+    /// Replaces the tokenizer of the underlying index (see
+    /// [`Collection::set_tokenizer`](crate::collection::Collection::set_tokenizer)).
+    pub(crate) fn set_tokenizer(&mut self, tokenizer: TokenizerChain) {
+        self.index.set_tokenizer(tokenizer);
+    }
+
     /// Returns the stable index name.
     pub fn name(&self) -> &str {
         &self.name
